@@ -111,6 +111,9 @@ func (erv *exchangeRateValidation) Validate(val any) error {
 		return nil
 	}
 	for _, r := range erv.rates {
+		if r == nil {
+			continue
+		}
 		if r.From == cur && r.To == erv.to {
 			return nil
 		}
